@@ -1502,8 +1502,8 @@ impl KotoVm {
                         );
                     };
 
-                    let end = if inclusive { end + 1 } else { end };
-                    end + index as i64
+                    let end = if inclusive { end.saturating_add(1) } else { end };
+                    end.wrapping_add(index as i64)
                 } else {
                     let Some(start) = r.start() else {
                         return runtime_error!(
@@ -1512,7 +1512,7 @@ impl KotoVm {
                             index
                         );
                     };
-                    start + index as i64
+                    start.wrapping_add(index as i64)
                 }
                 .into();
 
@@ -1624,12 +1624,14 @@ impl KotoVm {
             Range(r) if r.is_bounded() => {
                 // e.g. `(first, rest...)` matched against `1..5`: the rest is the sub-range
                 let bounds = r.as_bounded_range();
-                let size = (bounds.end - bounds.start) as usize;
+                // The distance between two i64 values always fits in a u64
+                let size = bounds.end.wrapping_sub(bounds.start) as u64 as usize;
                 let index = signed_index_to_unsigned(index, size).min(size) as i64;
+                let split = bounds.start.wrapping_add(index);
                 if is_slice_to {
-                    KRange::from(bounds.start..bounds.start + index).into()
+                    KRange::from(bounds.start..split).into()
                 } else {
-                    KRange::from(bounds.start + index..bounds.end).into()
+                    KRange::from(split..bounds.end).into()
                 }
             }
             unexpected => return unexpected_type("a sliceable value", &unexpected),
